@@ -270,6 +270,111 @@ fn one_ms(st: &mut Stats, seed: u64, i_ms: u64, t_ms: u64, script: Script, rever
     }
 }
 
+/// A peer that dies behind a connection whose send buffer is (or becomes) full: it answers `k` Pings at once and is never heard of
+/// again, and from that moment the endpoint's sink never becomes ready, cannot be flushed and cannot be closed. The endpoint must
+/// still give up within [T', T'+I] after the last Pong and release everything that was pending.
+fn blocked_sink_case(st: &mut Stats, seed: u64, i_ms: u64, t_ms: u64, k: u32) {
+    use crate::memws::{FaultKind, FaultPlan, Trigger};
+    st.evaluations += 1;
+    st.engine("SIM", 1);
+    let mut rng = Rng64::new(mix(seed, 0x16B));
+    let cfg = EpCfg { keepalive: Some((i_ms, t_ms)), rwnd: 4, bind_buf: 4, ..EpCfg::default() };
+    let tp_ms = t_ms.max(i_ms);
+    let sh = sim::Shared::new(mix(seed, 5), rng.below(3) as u8);
+    let horizon_ms = 2000 * i_ms;
+    let end = sim::run_with_watchdog(&sh, Duration::from_millis(horizon_ms + 10_000_000), move |sh| async move {
+        let (w0, w1, net) = memws::pair(&sh, [0, 0], [None, None], false);
+        let e0 = wl::endpoint(&sh, 0, &cfg, w0, seed);
+        let mut raw = Raw::new(w1);
+        raw.send(&RefFrame::Connect { id: 0x51, rwnd: 1, port: 1, host: b"s1.".to_vec() }).await;
+        raw.send(&RefFrame::Connect { id: 0x52, rwnd: 1, port: 2, host: b"s2.".to_vec() }).await;
+        let reader = e0.mux.accept_stream_channel().await.ok();
+        let writer = e0.mux.accept_stream_channel().await.ok();
+        let pend = Pending::spawn(&sh, &e0.mux, reader, writer, true);
+        let t_end = tokio::time::Instant::now() + Duration::from_millis(horizon_ms);
+        let mut task = e0.task;
+        let mut returned = false;
+        let mut answered = 0u32;
+        let mut dead = false;
+        loop {
+            tokio::select! {
+                biased;
+                r = &mut task, if !returned => { let _ = r; returned = true; break; }
+                g = raw.recv(), if !dead => {
+                    if let Got::Ping = g {
+                        if answered < k {
+                            answered += 1;
+                            raw.send_msg(Message::Pong).await;
+                        }
+                        if answered >= k {
+                            // the next thing the endpoint tries to send finds the sink blocked for good
+                            let sent = net.lock().unwrap().sent(0);
+                            memws::arm_fault(&net, 0, FaultPlan { trigger: Trigger::SendIdx(sent), kind: FaultKind::SilentBlockedSink });
+                            dead = true;
+                        }
+                    } else if matches!(g, Got::End | Got::Err) {
+                        dead = true;
+                    }
+                }
+                () = tokio::time::sleep_until(t_end) => break,
+            }
+        }
+        let outcomes = if returned {
+            let mut o = pend.collect().await;
+            o.extend(endops::later(&e0.mux, true).await);
+            Some(o)
+        } else {
+            None
+        };
+        drop(e0.mux);
+        (returned, outcomes)
+    });
+    let log = sh.take_log();
+    let o = observe(&log);
+    let cfgs = format!("I={i_ms}ms T={t_ms}ms, peer answers {k} Ping(s) and dies, sink blocked from then on");
+    let mut fail = |st: &mut Stats, sig: String, detail: String| {
+        st.violation(Violation { signature: sig, detail: format!("{detail} [{cfgs}]"),
+            replay: json!({"kind": "c16-blocked-sink", "run_seed": seed, "I_ms": i_ms, "T_ms": t_ms, "answered": k,
+                "pongs_ms": o.pongs.iter().take(12).map(|t| t / 1000).collect::<Vec<_>>(), "task_return": o.ret.as_ref().map(|(t, r)| format!("{r} at {} ms", t / 1000)), "trace_tail": sim::render(&log, 40)}) });
+    };
+    let (returned, outcomes) = match end {
+        sim::RunEnd::Finished(x) => x,
+        sim::RunEnd::Stalled => {
+            fail(st, "stall|blocked-sink".into(), "the run did not finish within the horizon".into());
+            return;
+        }
+        sim::RunEnd::Panicked(m) => {
+            st.inconclusive.push(format!("harness panic in c16 blocked sink: {m}"));
+            return;
+        }
+    };
+    st.target("dead_peer_with_blocked_sink_runs", 1);
+    let p = o.pongs.iter().max().copied().unwrap_or(0);
+    match (&o.ret, returned) {
+        (Some((tau, res)), _) => {
+            st.target("timeouts_observed", 1);
+            if res != "Err(KeepaliveTimeout)" {
+                fail(st, format!("task-returned|{res}|blocked-sink"), format!("the connection task returned {res} at {} ms", tau / 1000));
+            } else {
+                if tau - p < tp_ms * 1000 {
+                    fail(st, "timeout-too-early|blocked-sink".into(), format!("KeepaliveTimeout at {} ms, last Pong at {} ms, T' = {tp_ms} ms", tau / 1000, p / 1000));
+                }
+                if tau - p > (tp_ms + i_ms) * 1000 {
+                    fail(st, "timeout-too-late|blocked-sink".into(), format!("peer silent since {} ms, KeepaliveTimeout only at {} ms (bound T'+I = {} ms)", p / 1000, tau / 1000, tp_ms + i_ms));
+                }
+            }
+            if let Some(out) = &outcomes {
+                st.target("pending_ops_checked", out.len() as u64);
+                for (sig, detail) in endops::judge(out, "keepalive-timeout", false) {
+                    fail(st, format!("{sig}|blocked-sink"), detail);
+                }
+            }
+        }
+        (None, _) => fail(st, "dead-peer-not-detected|blocked-sink".into(), format!("the peer has been silent since {} ms and nothing can be sent; the connection task has not returned within {} ms (bound T'+I = {} ms after the last pong): the connection is never terminated and every pending operation hangs", p / 1000, horizon_ms, tp_ms + i_ms)),
+    }
+    st.nontrivial(mix(seed, u64::from(k) + 77));
+}
+
 pub fn run(p: &Params) -> (Stats, &'static str) {
     std::panic::set_hook(Box::new(|_| {}));
     sim::install_observer();
@@ -339,6 +444,16 @@ pub fn run(p: &Params) -> (Stats, &'static str) {
                 st.target("sub_second_runs", 1);
                 let _ = rep;
             }
+        }
+    }
+    // a peer that dies behind a full send buffer: nothing can be sent, flushed or closed any more
+    for (j, (i_ms, t_ms)) in [(1000u64, 1000u64), (1000, 3000), (2000, 5000), (5000, 2000), (700, 700), (250, 1750)].into_iter().enumerate() {
+        for k in 0..3u32 {
+            idx += 1;
+            if idx % p.nshards != p.shard {
+                continue;
+            }
+            blocked_sink_case(&mut st, mix(base, 0xB10C + (j as u64) * 8 + u64::from(k)), i_ms, t_ms, k);
         }
     }
     st.exhaustive.push("(I,T) in {1,2,3,5,10,60}^2 x 12 pong-script kinds (delays seeded); 12 (I,T) pairs that are not whole seconds x 4 kinds".into());
